@@ -718,15 +718,22 @@ char* MemoryLeakDetector::reallocMemory(TestMemoryAllocator* allocator, char* me
    allocatNodesSeperately = true;
 #endif
     if (!sizeLeavesRoomForAccountingInformation(size)) return NULLPTR;
+    MemoryLeakDetectorNode* node = NULLPTR;
     if (memory) {
-        MemoryLeakDetectorNode* node = memoryTable_.removeNode(memory);
+        node = memoryTable_.removeNode(memory);
         if (node == NULLPTR) {
             outputBuffer_.reportDeallocateNonAllocatedMemoryFailure(file, line, allocator, reporter_);
             return NULLPTR;
         }
-        checkForCorruption(node, file, line, allocator, allocatNodesSeperately);
+        /* a separately allocated record is kept until the block has really been reallocated */
+        checkForCorruption(node, file, line, allocator, false);
     }
-    return reallocateMemoryAndLeakInformation(allocator, memory, size, file, line, allocatNodesSeperately);
+    char* new_memory = reallocateMemoryAndLeakInformation(allocator, memory, size, file, line, allocatNodesSeperately);
+    if (node) {
+        if (new_memory == NULLPTR) memoryTable_.addNewNode(node); /* the old block is still valid: keep tracking it */
+        else if (allocatNodesSeperately) allocator->freeMemoryLeakNode((char*) node);
+    }
+    return new_memory;
 }
 
 void MemoryLeakDetector::ConstructMemoryLeakReport(MemLeakPeriod period)
